@@ -1,6 +1,6 @@
 (* C09 Builder is faithful and serialisation loses nothing *)
 Load "coq/props/Hdr".
-From PM Require Import BuildG BuildGen C01P C09 Builder Assemble.
+From PM Require Import BuildG BuildGen C01P C09 Builder Assemble C08rel Final Exec.
 Lemma src_rt : rt_ok cfg. Proof. apply conds_rt_ok. vm_compute. reflexivity. Qed.
 Lemma src_tbl : tbl_ok cfg. Proof. apply conds_tbl_ok. vm_compute. reflexivity. Qed.
 Lemma src_cfg_ok : cfg_ok cfg. Proof. exact (rt_cfg _ src_rt). Qed.
@@ -48,3 +48,34 @@ Theorem C09_fields_generic : forall t p t' p', fields_valid cfg p -> build cfg G
   t' = make_ascii_lowercase t /\ valid_type cfg t' = true /\ p_name p' <> [] /\ fields_valid cfg p' /\ same_fields p p' /\ build cfg G t' p' = Ok (t', p').
 Proof. apply (build_G_stable cfg src_rt); sc. Qed.
 Print Assumptions C09_fields_generic.
+(* build() succeeds exactly when the hook accepts (type valid / type rule satisfied), the name is non-empty and any checksum is well-formed *)
+Theorem C09_build_succeeds_iff_generic : forall t p, (exists x, build cfg G t p = Ok x) <->
+  valid_type cfg t = true /\ p_name p <> [] /\ cs_well_formed cfg (p_quals p).
+Proof.
+  intros t p. rewrite (build_succeeds_iff cfg G (t_ck _ src_tbl) t p). cbn [sh_finish string_shape]. unfold str_finish. split.
+  - intros (t1 & p1 & Ef & Hn & Hc). destruct (valid_type cfg t); [|discriminate]. injection Ef as <- <-. auto.
+  - intros (Hv & Hn & Hc). rewrite Hv. do 2 eexists. split; [reflexivity|auto].
+Qed.
+Print Assumptions C09_build_succeeds_iff_generic.
+Theorem C09_build_succeeds_iff_typed : forall t p, (exists x, build cfg P t p = Ok x) <->
+  (t = Maven -> forallb is_empty (split c_slash (p_ns p)) = false) /\ p_name (with_name p (rule cfg t (p_name p))) <> [] /\ cs_well_formed cfg (p_quals p).
+Proof.
+  intros t p. rewrite (build_succeeds_iff cfg P (t_ck _ src_tbl) t p). cbn [sh_finish ptype_shape]. unfold pt_finish, maven_ns_missing. change (maven_ns_segments cfg) with true. cbv iota. split.
+  - intros (t1 & p1 & Ef & Hn & Hc). destruct t; try (injection Ef as <- <-; split; [discriminate|split; assumption]).
+    destruct (forallb is_empty (split c_slash (p_ns p))); [discriminate|]. injection Ef as <- <-. split; [reflexivity|split; assumption].
+  - intros (Hm & Hn & Hc). destruct t; try (do 2 eexists; split; [reflexivity|split; assumption]).
+    rewrite (Hm eq_refl). do 2 eexists; split; [reflexivity|split; assumption].
+Qed.
+Print Assumptions C09_build_succeeds_iff_typed.
+(* the builder steps executed by the correspondence check are those the theorems above speak about *)
+Theorem C09_executed_steps : forall (T : Type) (b : @bstate T) o,
+  match bstep cfg b o, xstep cfg (b_type b, b_parts b) (embed o) with
+  | Ok b', Ok (t, p) => b_type b' = t /\ b_parts b' = p
+  | Err _, Err StopQE => True
+  | _, _ => False end.
+Proof. intros T. apply xstep_is_bstep. Qed.
+Print Assumptions C09_executed_steps.
+Theorem C09_empty_means_unset : forall (T : Type) (tp : T * parts),
+  xstep cfg tp XNoNs = xstep cfg tp (XNs []) /\ xstep cfg tp XNoVer = xstep cfg tp (XVer []) /\ xstep cfg tp XNoSub = xstep cfg tp (XSub []).
+Proof. intros T. apply xstep_without. Qed.
+Print Assumptions C09_empty_means_unset.
